@@ -919,6 +919,22 @@ def r06c(P, R):
             R.undecided("R06-c", "add_entry-args:%d" % j, "could not trace the %s handed to add_entry" % ", ".join(und), loc=wf.loc())
         else:
             R.holds("R06-c", "add_entry-args:%d" % j, "(gen line, gen column, orig line, orig column) each from its own source", loc=wf.loc())
+        # the generated position of a segment is the cursor that `write` maintains (line breaks, pending indentation, UTF-16 widths),
+        # read when the segment is recorded — never re-derived by arithmetic on an earlier reading or on the text
+        recomputed = []
+        for role in ("gline", "gcol"):
+            base = base_of_role.get(role)
+            r = entry_component(C, c, roles[base]) if base in roles else None
+            if r is not None and r[1]:
+                ar = sorted({x[1] for x in r[0] if x[0] == "op" and x[1] in ARITH} | {x[1].split("::")[-1] for x in r[0] if x[0] == "call" and x[1].split("::")[-1] in ARITH_CALLS})
+                if ar:
+                    recomputed.append("the %s is computed with %s" % (ROLE_NAME[role], ", ".join("`%s`" % o for o in ar)))
+        if recomputed:
+            R.violated("R06-c", "add_entry-cursor:%d" % j, "write_for hands add_entry a generated position that is not the writer's cursor as read at that point: "
+                       + "; ".join(recomputed) + " — `write` moves the cursor by line breaks and indentation too, so a position predicted from the "
+                       "text is wrong as soon as the chunk contains a newline", loc=wf.loc())
+        elif not bad and not und:
+            R.holds("R06-c", "add_entry-cursor:%d" % j, "generated line and column are plain reads of the cursor", loc=wf.loc())
         base = base_of_role.get("src")
         r = entry_component(C, c, roles[base]) if base in roles else None
         if r is None or (not (has_field(r[0], SW, V.f_mapper) or has_field(r[0], POS, "file")) and outside_param(r[0])):
@@ -927,6 +943,10 @@ def r06c(P, R):
             R.check("R06-c", "add_entry-source:%d" % j, has_field(r[0], SW, V.f_mapper) or has_field(r[0], POS, "file"),
                     "source index comes from the node's file through the mapper",
                     "write_for passes a source index not derived from the node's file", loc=wf.loc())
+
+
+ARITH = {"+", "-", "*", "/", "%", "+=", "-=", "*="}
+ARITH_CALLS = {"checked_add", "saturating_add", "wrapping_add", "checked_sub", "saturating_sub", "wrapping_sub", "add", "sub"}
 
 
 def segment_roles(P):
